@@ -211,4 +211,52 @@ theorem soloN_saturate (h : Heap L V) (prog : List (Step L V O E)) (k : Nat)
   rw [soloN_add, solo]
   exact soloN_nil _ _ (soloN_done h ⟨prog, []⟩ prog.length (Nat.le_refl _)) d
 
+/-! ### requests that raise midway (malformed requests, errors found while constraining the dataset) -/
+
+/-- the step of a request at which a Python exception is raised: touches nothing, ends the thread with `e` -/
+def raiseStep (e : E) : Step L V O E := ⟨[], [], fun _ => .error e⟩
+
+/-- a program cut short: `none` = runs to its end; `some (k, e)` = after `k` steps the exception `e` is raised
+    (`k = 0`: the request is rejected before anything is done, as `parse_ce` does with a malformed one) -/
+def interrupted (prog : List (Step L V O E)) : Option (Nat × E) → List (Step L V O E)
+  | none => prog
+  | some (k, e) => prog.take k ++ [raiseStep e]
+
+theorem mem_interrupted {prog : List (Step L V O E)} {c : Option (Nat × E)} {s : Step L V O E}
+    (h : s ∈ interrupted prog c) : s ∈ prog ∨ (s.reads = [] ∧ s.writes = []) := by
+  cases c with
+  | none => exact Or.inl h
+  | some ke =>
+    obtain ⟨k, e⟩ := ke
+    simp only [interrupted, List.mem_append, List.mem_singleton] at h
+    rcases h with h | h
+    · exact Or.inl (List.mem_of_mem_take h)
+    · subst h; exact Or.inr ⟨rfl, rfl⟩
+
+/-- the discipline survives cutting any thread's program short at any point, with any exception -/
+theorem disciplined_interrupted {owner : L → Option Nat} {P : Nat → List (Step L V O E)}
+    (hD : Disciplined owner P) (cut : Nat → Option (Nat × E)) :
+    Disciplined owner (fun t => interrupted (P t) (cut t)) := by
+  refine ⟨?_, ?_⟩
+  · intro t s hs l hl
+    rcases mem_interrupted hs with h | h
+    · exact hD.writes_owned t s h l hl
+    · rw [h.2] at hl; cases hl
+  · intro t s hs l hl
+    rcases mem_interrupted hs with h | h
+    · rcases hD.reads_ok t s h l hl with h' | h'
+      · exact Or.inl h'
+      · right
+        intro u s' hs' hw
+        rcases mem_interrupted hs' with h'' | h''
+        · exact h' u s' h'' hw
+        · rw [h''.2] at hw; cases hw
+    · rw [h.1] at hl; cases hl
+
+/-- a request rejected before its first step emits the exception and nothing else -/
+theorem solo_rejected (h : Heap L V) (prog : List (Step L V O E)) (e : E) :
+    (solo h (interrupted prog (some (0, e)))).2.outs = [Emit.err e] ∧
+    (solo h (interrupted prog (some (0, e)))).1 = h := by
+  simp [solo, interrupted, soloN, stepThread, raiseStep]
+
 end Pydap.Sched
